@@ -20,7 +20,7 @@ Proof.
   induction fuel as [|fuel (IHe & IHs & IHf)].
   - split; [intros; apply expr_sim_0|]. split; [intros; apply stmt_sim_0|intros; apply for_sim_0].
   - split; [|split].
-    + intros e. destruct e as [z|b|s|x|o a|o a b|f args|c a b|es|a i|a].
+    + intros e. destruct e as [z|b|s|x|o a|o a b|f args|c a b|es|a i|a|so a|so a b|a b c].
       * apply sim_ENum; exact HG.
       * apply sim_EBool; exact HG.
       * apply sim_EStr; exact HG.
@@ -34,6 +34,9 @@ Proof.
       * apply sim_EArr; try exact HG. apply Forall_forall. intros a _. apply IHe.
       * apply sim_EAt; try exact HG; apply IHe.
       * apply sim_ELen; try exact HG. apply IHe.
+      * apply sim_EStr1; try exact HG. apply IHe.
+      * apply sim_EStr2; try exact HG; apply IHe.
+      * apply sim_ESubstr; try exact HG; apply IHe.
     + intros s. destruct s as [ |s1 s2|m x t e|x e|c0 s1 s2|c0 body|x lo hi body| | |[e|]|nl e|e|e].
       * apply sim_SSkip; exact HG.
       * apply sim_SSeq; try exact HG; apply IHs.
